@@ -341,6 +341,12 @@ def run_correspondence(ck, consts):
     ck.extra["fingerprint_cache_kinds"] = caches
     ck.extra["bodies_with_more_than_one_chunk"] = crossed_mib
     ck.extra["remote_write_bodies_with_1000_points_or_more"] = crossed_1000
+    both = [c for c in cases if c["proto"] == "prw" and c["nrows"] >= consts["FLUSH_LIMIT"] and len(c["obs"]["chunks"]) > 1]
+    ndbig = [c for c in cases if c["proto"] in ("ddcf", "esbulk") and len(c["obs"]["chunks"]) > 1]
+    ck.extra["remote_write_bodies_crossing_both_thresholds_at_once"] = [{"series": len(c["body"]["prw"]), "points": c["nrows"], "responses": len(c["obs"]["chunks"])} for c in both]
+    ck.extra["newline_delimited_bodies_with_more_than_one_chunk"] = len(ndbig)
+    ck.obligation("chunking: a multi-series remote-write body crosses the point limit and the size threshold at once (%d bodies), newline-delimited bodies cross the size threshold (%d bodies)" % (len(both), len(ndbig)),
+                  bool(both) and bool(ndbig))
     ck.extra["parser_errors_by_class"] = errs
     ck.extra["unmodelled_bodies"] = len(unmod)
     nh = len(hists)
